@@ -618,10 +618,19 @@ class Engine:
         elif k == 'cond':
             a = self.value_of(E, x.args[1]) if x.args[1] is not None else TOP
             b = self.value_of(E, x.args[2]) if x.args[2] is not None else TOP
-            # only the arm evaluated on this path has a temp
-            have_a = x.args[1] is not None and x.args[1].id in T
-            have_b = x.args[2] is not None and x.args[2].id in T
-            if have_a and not have_b:
+            have_a = x.args[1] is not None and (x.args[1].id in T or x.args[1].const is not None)
+            have_b = x.args[2] is not None and (x.args[2].id in T or x.args[2].const is not None)
+            cv = self.value_of(E, x.args[0]) if x.args[0] is not None else TOP
+            truth = None
+            if cv is not TOP and cv:
+                ts = {(bool(e) if isinstance(e, int) else True) for e in cv}
+                if len(ts) == 1:
+                    truth = next(iter(ts))
+            if truth is True:
+                T[x.id] = a if have_a else TOP
+            elif truth is False:
+                T[x.id] = b if have_b else TOP
+            elif have_a and not have_b:
                 T[x.id] = a
             elif have_b and not have_a:
                 T[x.id] = b
@@ -629,6 +638,10 @@ class Engine:
                 T[x.id] = a | b
             else:
                 T[x.id] = TOP
+            # the arms' temporaries belong to this evaluation only (loops would otherwise see stale ones)
+            for arm in x.args[1:3]:
+                if arm is not None:
+                    T.pop(arm.id, None)
         elif k == 'call':
             return self.eval_call(E, x)
         elif k == 'ret':
